@@ -171,7 +171,7 @@ def rule_dtype_mod(repo, rid, modules, exempt):
     n = 0
     seen_ex = set()
     for m in modules:
-        for f in repo.module(m).functions.values():
+        for f in repo.functions_view(m):
             n += 1
             for c in untyped_creators(f.node):
                 key = (f.fq, norm_construct(c, f.node))
@@ -211,7 +211,7 @@ def rule_mode(repo, rid, modules, exempt):
                      '%d tabled sites: eager float32 calls and calls under no_grad / with leaf tensors / in float64 take the same path' % len(exempt), floor=1)
     n = 0
     for m in modules:
-        for f in repo.module(m).functions.values():
+        for f in repo.functions_view(m):
             n += 1
             for node, atom, why, kind in mode_tests(f.node):
                 key = (f.fq, why)
@@ -291,7 +291,7 @@ def rule_cast(repo, rid, modules):
                      'tensors, float32 data with float64 calibration)', floor=1)
     n = 0
     for m in modules:
-        for f in repo.module(m).functions.values():
+        for f in repo.functions_view(m):
             n += 1
             for c, xr, yr in cross_casts(f.node):
                 res.inst({'function': f.fq, 'cast': src(c)[:60], 'of argument': xr, 'to the dtype of argument': yr}, (f.fq, src(c)[:60]))
@@ -319,7 +319,7 @@ def rule_api(repo, rid, modules):
                      'argument that makes it exact' % ', '.join(sorted(API_HAZARDS)), floor=1)
     n = 0
     for m in modules:
-        for f in repo.module(m).functions.values():
+        for f in repo.functions_view(m):
             n += 1
             for c in _own_nodes(f.node):
                 if isinstance(c, ast.Call) and dotted(c.func) in API_HAZARDS:
@@ -393,7 +393,7 @@ def guard_sites(fnode):
     return out
 
 
-def guard_key(kind, node, fnode):
+def guard_key(kind, node, fnode, resolve=False):
     """what a safeguard does, without where it is applied: a repeated identical clamp / threshold is idempotent or redundant, a new bound is a new safeguard"""
     if kind == 'sat':
         nm = (dotted(node.func) or (node.func.attr if isinstance(node.func, ast.Attribute) else '')).split('.')[-1]
@@ -408,6 +408,19 @@ def guard_key(kind, node, fnode):
         # operator and the threshold side(s): which quantity is compared is left open
         ths = []
         small = _small_names(fnode)
+        # a local bound once to the machine epsilon (`eps = torch.finfo(theta.dtype).eps`) stands for that expression
+        eps_defs = {}
+        for a in _own_nodes(fnode):
+            if isinstance(a, ast.Assign) and len(a.targets) == 1 and isinstance(a.targets[0], ast.Name) and isinstance(a.value, ast.Attribute) and a.value.attr in EPS_NAMES:
+                eps_defs.setdefault(a.targets[0].id, []).append(a.value)
+        eps_defs = {k: v[0] for k, v in eps_defs.items() if len(v) == 1}
+        if eps_defs and resolve:
+            import copy as _copy
+
+            class _Sub(ast.NodeTransformer):
+                def visit_Name(self, n):
+                    return _copy.deepcopy(eps_defs[n.id]) if isinstance(n.ctx, ast.Load) and n.id in eps_defs else n
+            node = _Sub().visit(_copy.deepcopy(node))
         for side in [node.left] + list(node.comparators):
             if any((isinstance(x, ast.Constant) and isinstance(x.value, float) and 0 < abs(x.value) < 1e-2) or (isinstance(x, ast.Attribute) and x.attr in small) or
                    (isinstance(x, ast.Name) and x.id in small) for x in ast.walk(side)):
@@ -457,7 +470,7 @@ def rule_guardset(repo, rid, modules):
                      'GUARD_TABLE for its function does' % sum(len(v) for v in GUARD_TABLE.values()), floor=1)
     n = 0
     for m in modules:
-        funcs = list(repo.module(m).functions.values())
+        funcs = list(repo.functions_view(m))
         # a tabled safeguard whose function no longer contains it (the function was renamed, or the statement was moved into a helper of the same module) is an
         # ORPHAN; an untabled safeguard of the same kind that does the same thing in another function of the module is that safeguard, moved
         here = {}
@@ -475,6 +488,10 @@ def rule_guardset(repo, rid, modules):
             for kind, node in guard_sites(f.node):
                 key = guard_key(kind, node, f.node)
                 allowed = GUARD_TABLE.get((f.fq, kind), {})
+                if key not in allowed:
+                    alt = guard_key(kind, node, f.node, resolve=True)        # `eps = torch.finfo(x.dtype).eps; x > eps` is `x > torch.finfo(x.dtype).eps`
+                    if alt in allowed:
+                        key = alt
                 moved = key not in allowed and (kind, key) in orphans
                 if moved:
                     orphans.remove((kind, key))
@@ -525,7 +542,7 @@ def rule_rng(repo, rid, modules):
                      'random' % len(RNG_TABLE), floor=1)
     n = 0
     for m in modules:
-        funcs = list(repo.module(m).functions.values())
+        funcs = list(repo.functions_view(m))
         cur = {f.fq: len(rng_sites(f.node)) for f in funcs}
         budget = sum(max(0, k - cur.get(fq, 0)) for fq, k in RNG_TABLE.items() if fq.split(':')[0] == m)      # tabled draws that left their function: moved within the module
         for f in funcs:
@@ -659,7 +676,7 @@ def rule_argmut(repo, rid, modules):
                      'container is changed, and so is the meaning of its positions (per-axis sizes, ordered gains) for the rest of THIS call', floor=1)
     n = 0
     for m in modules:
-        for f in repo.module(m).functions.values():
+        for f in repo.functions_view(m):
             n += 1
             for c, p_ in arg_mutations(f.node):
                 res.inst({'function': f.fq, 'mutation': src(c)[:50], 'argument': p_}, (f.fq, src(c)[:50]))
@@ -784,7 +801,7 @@ def rule_hygiene(repo, rid, modules):
                      'setters occur only at the %d reviewed (function, kind) entries of HYGIENE_TABLE, no more often than tabled' % len(HYGIENE_TABLE), floor=1)
     n = 0
     for m in modules:
-        funcs = list(repo.module(m).functions.values())
+        funcs = list(repo.functions_view(m))
         # sites tabled for a function of this module that are no longer there (function renamed, statement moved into a helper): a budget that an untabled site of
         # the same kind elsewhere in the module may use - the statement was moved, not added
         cur = {}
@@ -858,7 +875,7 @@ def rule_argattr(repo, rid, modules):
                      '`self.a` bound to that argument - the caller\'s object (a stepper, a strategy, a system) is shared with everything else the caller gives it to', floor=1)
     n = 0
     for m in modules:
-        for f in repo.module(m).functions.values():
+        for f in repo.functions_view(m):
             n += 1
             for st, base, par, attr in argattr_writes(f.node):
                 tab = ARGATTR_TABLE.get((f.fq, attr))
@@ -981,7 +998,7 @@ def rule_sharedstate(repo, rid, modules):
                      'tabled sites' % (len(DEFAULT_OBJ_TABLE) + len(CACHE_TABLE)), floor=1)
     n = 0
     for m in modules:
-        for f in repo.module(m).functions.values():
+        for f in repo.functions_view(m):
             n += 1
             for node, what in shared_state_sites(repo, f):
                 res.inst({'function': f.fq, 'site': src(node)[:50] if not isinstance(node, ast.FunctionDef) else 'decorator'}, (f.fq, what[:40], getattr(node, 'lineno', 0)))
@@ -1059,7 +1076,7 @@ def rule_rankcmp(repo, rid, modules):
                      'batch axes on one of the two, two documented forms share a rank difference' % len(RANKCMP_TABLE), floor=1)
     n = 0
     for m in modules:
-        for f in repo.module(m).functions.values():
+        for f in repo.functions_view(m):
             n += 1
             rels = rank_relations(f.node)
             allowed = RANKCMP_TABLE.get(f.fq, (0, None))[0]
@@ -1104,7 +1121,7 @@ def rule_ducklist(repo, rid, modules):
                      '__iter__, __len__): the single objects these arguments hold - nn.Module containers, tensors, LieTensors - are iterable themselves', floor=1)
     n = 0
     for m in modules:
-        for f in repo.module(m).functions.values():
+        for f in repo.functions_view(m):
             n += 1
             for node, what in duck_sequence_tests(f.node):
                 res.inst({'function': f.fq, 'test': src(node)[:50], 'tabled': DUCK_TABLE.get(f.fq)}, (f.fq, src(node)[:50]))
@@ -1142,7 +1159,7 @@ def rule_shapeform(repo, rid, modules):
                      'for particular extents (a batch of n states, as many items as components) a documented form has exactly that shape too', floor=1)
     n = 0
     for m in modules:
-        for f in repo.module(m).functions.values():
+        for f in repo.functions_view(m):
             n += 1
             for node, names in shape_form_tests(f.node):
                 res.inst({'function': f.fq, 'test': src(node)[:60]}, (f.fq, src(node)[:60]))
@@ -1178,7 +1195,7 @@ def rule_collabattr(repo, rid, modules):
                      'belongs to the caller too; a temporary setting that is restored by a plain statement stays behind whenever the code in between raises', floor=1)
     n = 0
     for m in modules:
-        for f in repo.module(m).functions.values():
+        for f in repo.functions_view(m):
             n += 1
             for st, tgt in collab_attr_writes(f.node):
                 res.inst({'function': f.fq, 'write': src(st)[:60]}, (f.fq, src(st)[:60]))
@@ -1223,7 +1240,7 @@ def rule_shapelit(repo, rid, modules):
                      % len(SHAPELIT_TABLE), floor=1)
     n = 0
     for m in modules:
-        for f in repo.module(m).functions.values():
+        for f in repo.functions_view(m):
             n += 1
             for c in shape_literal_tests(f.node):
                 res.inst({'function': f.fq, 'test': src(c)[:50], 'tabled': SHAPELIT_TABLE.get(f.fq)}, (f.fq, src(c)[:50]))
@@ -1297,7 +1314,7 @@ def rule_tempset(repo, rid, modules):
                      'the object\'s / the process\'s life', floor=1)
     n = 0
     for m in modules:
-        for f in repo.module(m).functions.values():
+        for f in repo.functions_view(m):
             n += 1
             for st, rs, t in temp_sets(f.node):
                 res.inst({'function': f.fq, 'temporary': src(st)[:50], 'restore': src(rs)[:50]}, (f.fq, src(st)[:50]))
@@ -1351,7 +1368,7 @@ def rule_snapshot(repo, rid, modules):
                      'it was built, the update - composition with the carried rotation, an accumulation - never reaches what is handed on', floor=1)
     n = 0
     for m in modules:
-        for f in repo.module(m).functions.values():
+        for f in repo.functions_view(m):
             n += 1
             for s1, s2, use, S, X in stale_snapshots(f.node):
                 res.inst({'function': f.fq, 'snapshot': src(s1)[:40], 'update': src(s2)[:40]}, (f.fq, S, X))
@@ -1449,7 +1466,7 @@ def rule_warnfall(repo, rid, modules):
                      'documented sites: a condition that stops the call with an error on the pinned tree, or an input outside the contract, is not turned into a result' % len(WARNFALL_TABLE), floor=1)
     n = 0
     for m in modules:
-        for f in repo.module(m).functions.values():
+        for f in repo.functions_view(m):
             n += 1
             hits = warn_fallbacks(f.node)
             allowed = WARNFALL_TABLE.get(f.fq, (0, None))[0]
@@ -1495,7 +1512,7 @@ def rule_typeid(repo, rid, modules):
                      'tabled normalisation helper: elements restored by deepcopy / pickle / torch.load carry a re-created type object', floor=1)
     n = 0
     for m in modules:
-        for f in repo.module(m).functions.values():
+        for f in repo.functions_view(m):
             n += 1
             hits = ltype_identity_tests(f.node)
             allowed = TYPEID_TABLE.get(f.fq, (0, None))[0]
